@@ -3,7 +3,7 @@
    for the binary64 instance that is compared bit-exactly with the code. *)
 From Coq Require Import ZArith QArith List Bool.
 From V Require Import Base.Num Model.StreamCore Model.Zliobaite Model.StreamCounters
-  Model.Biqf Proofs.StreamGeneric Proofs.StreamGenericX Proofs.ZlProofs Proofs.CounterProofs Proofs.BiqfProofs Model.StreamStrategy Proofs.StreamStrategyProofs.
+  Model.Biqf Proofs.StreamGeneric Proofs.StreamGenericX Proofs.ZlProofs Proofs.CounterProofs Proofs.BiqfProofs Model.StreamStrategy Proofs.StreamStrategyProofs Model.Cognitive Proofs.CognitiveProofs.
 Import ListNotations.
 Close Scope Q_scope.
 
@@ -143,6 +143,35 @@ Theorem C03_strategy_lazy_manager_invisible :
     snd (xrun (squery (zquery k p) wstep inp) (supdate mu wstep inp) (force init s) h).
 Proof. intros. apply lazy_creation_invisible. Qed.
 Print Assumptions C03_strategy_lazy_manager_invisible.
+
+(* ---- the cognitive dual query strategies, as written (Model/Cognitive.v): for every distance
+   oracle, every memory-strength oracle, every manager decision function ---- *)
+Theorem C03_cognitive_query_restores_state :
+  forall (d : nat -> nat -> Z) (strength : nat -> nat -> Z) (cws thr : nat) (M : Type) (mdec : M -> nat -> bool)
+         (s : cog * M) (cs : list nat),
+  snd (cog_query d strength cws thr mdec s cs) = s /\
+  cog_query d strength cws thr mdec (snd (cog_query d strength cws thr mdec s cs)) cs = cog_query d strength cws thr mdec s cs.
+Proof. intros. split; [apply cog_query_restores|apply cog_query_idempotent]. Qed.
+Print Assumptions C03_cognitive_query_restores_state.
+
+Theorem C03_cognitive_extra_queries_invisible :
+  forall (d : nat -> nat -> Z) (strength : nat -> nat -> Z) (cws thr : nat) (M : Type) (mdec : M -> nat -> bool)
+         (mupd : M -> list (option nat) -> list nat -> option M) (ffb : bool) (h : list cog_op) (s : cog * M),
+  cog_hrun d strength cws thr mdec mupd ffb s h = cog_hrun d strength cws thr mdec mupd ffb s (filter cog_is_update h).
+Proof. intros. apply cog_extra_queries_invisible. Qed.
+Print Assumptions C03_cognitive_extra_queries_invisible.
+
+Theorem C03_cognitive_reachable_window_invariant :
+  forall (d : nat -> nat -> Z) (strength : nat -> nat -> Z) (cws thr : nat) (M : Type) (mdec : M -> nat -> bool)
+         (mupd : M -> list (option nat) -> list nat -> option M) (ffb : bool) (h : list cog_op) (m : M) (s' : cog * M),
+  cog_hrun d strength cws thr mdec mupd ffb (cog0, m) h = Some s' ->
+  winv cws (fst s') /\ ct (fst s') = list_sum (map cog_committed h).
+Proof.
+  intros d strength cws thr M mdec mupd ffb h m s' E.
+  destruct (cog_reachable_invariant d strength cws thr mdec mupd ffb h (cog0, m) s' (winv0 cws) E) as [H1 H2].
+  split; [exact H1|exact H2].
+Qed.
+Print Assumptions C03_cognitive_reachable_window_invariant.
 
 (* non-vacuity: a split manager whose query really draws random numbers *)
 Example C03_nonvacuous :
